@@ -111,6 +111,8 @@ class LoaderIterator(BaseNode[T]):
             self.root.reset(None)
             self._num_yielded = 0
         self._cached_item = _NO_CACHED_ITEM
+        # A state dict cached by an earlier has_next() describes the position before this reset
+        self._cached_state_dict = None
 
     def has_next(self) -> bool:
         if self._cached_item is _NO_CACHED_ITEM:
